@@ -142,6 +142,16 @@ func (w *W) Report(f Finding) {
 	w.out.Flush()
 }
 
+// heartbeat tells the supervisor the worker is alive during long set-up phases (corpus load, calibration).
+var heartbeatOut *bufio.Writer
+
+func heartbeat() {
+	if heartbeatOut != nil {
+		fmt.Fprintf(heartbeatOut, "H\n")
+		heartbeatOut.Flush()
+	}
+}
+
 // Model returns the Lean model driver client (started lazily).
 func (w *W) Model() *Model {
 	if w.model == nil {
@@ -248,6 +258,8 @@ func workerMain(args map[string]string) {
 	w := &W{Prop: args["prop"], Tier: args["tier"], out: bufio.NewWriterSize(os.Stdout, 1<<16),
 		hashes: map[uint64]struct{}{}, findKey: map[string]int{}, Only: -1, hashDir: args["hashdir"]}
 	w.stats.Counters = map[string]int{}
+	heartbeatOut = w.out
+	heartbeat()
 	w.Seed, _ = strconv.ParseUint(args["seed"], 10, 64)
 	w.Shard, _ = strconv.Atoi(args["shard"])
 	w.NShards, _ = strconv.Atoi(args["nshards"])
@@ -381,7 +393,7 @@ func superviseMain(args map[string]string) {
 				lastIdx, lastDesc, lastHex := -1, "", ""
 				done := false
 				timedOut := false
-				timer := time.NewTimer(caseTimeout)
+				timer := time.NewTimer(5 * caseTimeout) // generous until the first sign of life
 			loop:
 				for {
 					select {
@@ -428,6 +440,10 @@ func superviseMain(args map[string]string) {
 				_ = cmd.Wait()
 				if done {
 					return
+				}
+				// a worker that never reported a case (slow start on a cold machine) is restarted, not blamed on the code
+				if lastIdx < 0 && attempt < 3 {
+					continue
 				}
 				// the worker died (fatal runtime error, OOM kill) or stopped responding on case lastIdx
 				inp, _ := hex.DecodeString(lastHex)
